@@ -99,6 +99,10 @@ func (sc *RevScenario) evalRevCall(rc *ruleCtx, obs *RevObs, co *CallObs) {
 	w := co.World
 	// ---------- C12.R4: invalid or empty chain ----------
 	if w.ChainDefect != ChainOK && w.chainActuallyInvalid() {
+		if rc.on("C12") && co.Panicked && sc.PanicAt == "" {
+			rc.anteTrue("C12.R4")
+			rc.fail("C12.R4", "panic/defect="+chainDefectNames[w.ChainDefect], fmt.Sprintf("invalid chain (%s) via %s: want InvalidChainError, the call panicked: %v", chainDefectNames[w.ChainDefect], entryNames[w.Entry], co.PanicVal))
+		}
 		if rc.on("C12") && !co.Panicked {
 			rc.anteTrue("C12.R4")
 			var ice result.InvalidChainError
